@@ -9,7 +9,8 @@
 //     names one object: a cell reached through an index / map element / phi stands for several objects and is
 //     never removed);
 //   - `defer m.Unlock()` keeps the lock until the function returns; it is released at the return only if the defer
-//     was certainly executed (must-set of deferred unlocks, intersection at joins);
+//     was certainly executed (must-set of deferred unlocks, intersection at joins); the same for a certainly
+//     registered deferred library function / function literal that certainly releases it (`defer func() { m.Unlock() }()`);
 //   - a call of a library function is followed with the parameter -> cell bindings and the may-held set of the call
 //     site (context-sensitively, exactly like the must analysis), and what the callee still holds when it returns
 //     is held by the caller afterwards (a lock helper that returns with the lock taken);
@@ -102,6 +103,9 @@ type acqAn struct {
 	touched map[string]bool                // entry points whose analysis met a mutex operation
 	retInfo map[string]map[string][]string // context -> return position -> may-held there (non-empty only)
 }
+
+// deferKey: key of mayState.def for "this deferred call (not a plain unlock) was certainly registered"
+func deferKey(d *ssa.Defer) string { return fmt.Sprintf("#defer %p", d) }
 
 // summaryAddr: the address is reached through an index / map element / phi: the cell names several objects
 func summaryAddr(v ssa.Value, depth int) bool {
@@ -220,21 +224,50 @@ func (a *acqAn) analyze(f *ssa.Function, held map[string]string, bind map[ssa.Va
 		for _, ins := range b.Instrs {
 			switch x := ins.(type) {
 			case *ssa.Defer:
-				if m, ok := lockMethod(x.Common()); ok && (m == "Unlock" || m == "RUnlock") && len(x.Common().Args) > 0 {
-					if cell := a.an.cellOf(x.Common().Args[0], c, 0); cell != "" && !summaryAddr(x.Common().Args[0], 0) {
-						def[cell] = true
+				if m, ok := lockMethod(x.Common()); ok {
+					if (m == "Unlock" || m == "RUnlock") && len(x.Common().Args) > 0 {
+						if cell := a.an.cellOf(x.Common().Args[0], c, 0); cell != "" && !summaryAddr(x.Common().Args[0], 0) {
+							def[cell] = true
+						}
 					}
+				} else {
+					def[deferKey(x)] = true // this deferred call certainly runs at the return
 				}
 			case *ssa.RunDefers:
-				// deferred calls run with everything that may be held here; then the certainly deferred unlocks release
+				// deferred calls run with everything that may be held here (before any deferred unlock: a superset whatever
+				// the order).  What a deferred call takes may be held afterwards; what a CERTAINLY registered deferred call
+				// (defer func() { m.Unlock() }()) certainly releases — held when it starts, not in its may-held set when it
+				// returns — is released like a certainly deferred m.Unlock(), unless another deferred call may take it.
+				released, taken := map[string]bool{}, map[string]string{}
 				for _, d := range defers {
 					if _, ok := lockMethod(d.Common()); ok {
 						continue
 					}
-					a.call(f, c, d, d.Common(), copyHeld(h))
+					r := a.call(f, c, d, d.Common(), copyHeld(h))
+					if r == nil {
+						continue // not followed (noted by call), or nothing to follow
+					}
+					for k, m := range r {
+						if h[k] == "" || mergeMode(h[k], m) != h[k] {
+							taken[k] = mergeMode(taken[k], m)
+						}
+					}
+					if def[deferKey(d)] {
+						for k := range h {
+							if _, still := r[k]; !still && !a.summary[k] {
+								released[k] = true
+							}
+						}
+					}
 				}
 				for cell := range def {
 					delete(h, cell)
+				}
+				for cell := range released {
+					delete(h, cell)
+				}
+				for k, m := range taken {
+					h[k] = mergeMode(h[k], m)
 				}
 			case *ssa.Go:
 				a.call(f, c, ins, x.Common(), map[string]string{})
@@ -394,8 +427,7 @@ func (a *acqAn) call(f *ssa.Function, c *accCtx, ins ssa.Instruction, cc *ssa.Ca
 		return nil
 	}
 	if _, isDefer := ins.(*ssa.Defer); isDefer {
-		a.analyze(sc, copyHeld(held), nb, nf)
-		return nil
+		return a.analyze(sc, copyHeld(held), nb, nf) // the caller (RunDefers) decides what of it survives the return
 	}
 	return a.analyze(sc, copyHeld(held), nb, nf)
 }
